@@ -414,6 +414,9 @@ def eval_in_simulation(ctx, n):
             else:
                 ctx.count('force histories checked')
             if 'bending stress' in rec:
+                if e.get('module') is None or e.get('fw') is None:
+                    ctx.violation(case, {'why': f"{e['name']} records a bending stress although the data it requires are not all present"})
+                    continue
                 m_ = sif('Length', e['module'])
                 bw = sif('Length', e['fw'])
                 if e['type'] == 'wormwheel':
@@ -442,6 +445,9 @@ def eval_in_simulation(ctx, n):
                     ctx.count('bending histories checked')
             if 'contact stress' in rec:
                 other = by_name[mate[e['name']]]
+                if e.get('E') is None or e.get('fw') is None or other.get('E') is None or other.get('module') is None:
+                    ctx.violation(case, {'why': f"{e['name']} records a contact stress although the data it requires are not all present"})
+                    continue
                 E1, E2 = sif('Stress', e['E']), sif('Stress', other['E'])
                 d2 = other['z'] * sif('Length', other['module'])
                 beta = sif('Angle', e['helix']) if e['type'] == 'helical' else 0.0
